@@ -1501,6 +1501,9 @@ impl Zeroconf {
                     debug!("Exit command received, performing cleanup");
                     self.cleanup();
                     self.status = DaemonStatus::Shutdown;
+                    // Drop the commands queued behind Exit, so that their reply channels
+                    // are closed instead of leaving their callers waiting forever.
+                    while receiver.try_recv().is_ok() {}
                     return Some(command);
                 }
                 self.exec_command(command, false);
